@@ -13,7 +13,7 @@ CHECKS = {
   "At every state of the generated histories Pollard and MapPollard (full/partial) are asked for singletons, the full set, all subsets of small forests and random subsets in random request order; targets, proof hashes, cross-implementation identity, acceptance by every verifier and Verify's root indexes are compared with the reference model's canonical proof.",
   ORACLE),
  "C03": ("exploration", "runtime monitoring: truth oracle (reference-model node map) over exhaustive small-alphabet claims and structured mutation of honest proofs",
-  "Every claim accepted by Verify, Pollard.Verify, MapPollard.Verify or MapPollard.VerifyPartialProof is checked against the reference model's position->hash map: exhaustively over a small alphabet of targets/hashes/proofs for small forests, by structured mutation of honest proofs on larger ones, and after undo/remember/prune/refused calls with honest claims of earlier states; an accepted false claim is a violation.",
+  "Every claim accepted by Verify, Pollard.Verify, MapPollard.Verify or MapPollard.VerifyPartialProof is checked against the reference model's position->hash map: exhaustively over a small alphabet of targets/hashes/proofs for small forests, by structured mutation of honest proofs on larger ones (also with remember=true, on throw-away copies), and after undo/remember/prune/refused calls with honest claims of earlier states; an accepted false claim is a violation.",
   ORACLE + " Violations matching the recorded open findings (root candidate matched against a root of another tree; duplicated target used as its own sibling) are reported as KNOWN-FINDING."),
  "C04": ("exploration", "runtime monitoring: hostile-input workload in child processes with panic capture, logical step budget (hook) and state comparison",
   "Adversarial (hashes, targets, proof) triples - targets up to 2^64-1, duplicates, mismatched lengths, empty and oversized proofs - are thrown at Verify, Stump.Update, Pollard.Verify, MapPollard.Verify, VerifyPartialProof and GetMissingPositions in child processes; a panic, a call exceeding the logical step budget counted at the calcHashes hook (or the wall-clock backstop), or a rejected Stump.Update that changed roots/leaf count is a violation.",
@@ -22,10 +22,10 @@ CHECKS = {
   "Each block's honest proof is re-encoded (permuted pairs, trailing junk hashes, AddProof/GetProofSubset assemblies, updated cached proofs); every encoding Verify accepts is applied to Stump, Pollard and MapPollard (full/partial, several TotalRows) and the resulting roots/leaf count are compared with the reference model.",
   ORACLE),
  "C06": ("exploration", "runtime monitoring: reference-model snapshots, never-saw-it twin instances and a structure walk hook after every undo/redo",
-  "Histories of apply/undo-k/redo rounds (incl. full unwinds, emptied trees, overwritten empty roots) on Pollard, full and partial MapPollard: after every Undo roots, leaf count, every tracked leaf's position, GetHash of every position and proofs are compared with the reference model's snapshot of the earlier state and with a twin that never saw the undone blocks; Pollard's pointer structure is walked by the VerifCheckStructure hook.",
+  "Histories of apply/undo-k/redo rounds (incl. full unwinds, emptied trees, overwritten empty roots) on Pollard, full and partial MapPollard: undone blocks are also re-applied from their own (shared, uncopied) records; after every Undo roots, leaf count, every tracked leaf's position, GetHash of every position and proofs are compared with the reference model's snapshot of the earlier state and with a twin that never saw the undone blocks; Pollard's pointer structure is walked by the VerifCheckStructure hook.",
   ORACLE),
  "C07": ("exploration", "runtime monitoring: reference-model oracle over a light client driven only by block data",
-  "A light client (Stump + Proof + hashes) is updated with block targets, added hashes, remember indexes and its own UpdateData along enumerated (every remember subset) and seeded histories; the held leaf set, each position, the proof hashes and acceptance by Verify are compared with the reference model after every block.",
+  "A light client (Stump + Proof + hashes) is updated with block targets, added hashes, remember indexes and its own UpdateData (its cached proof sometimes re-ordered through GetProofSubset first) along enumerated (every remember subset) and seeded histories; the held leaf set, each position, the proof hashes and acceptance by Verify are compared with the reference model after every block.",
   ORACLE),
  "C08": ("exploration", "runtime monitoring: reference-model oracle over cached-proof update/undo/redo histories",
   "C07 runs followed by undo of the last k blocks newest-first (down to the empty accumulator) and redo on another branch; after each Proof.Undo the held set must be the previously held leaves minus the block's additions, with reference-model positions and canonical proof hashes, and must verify against the previous stump.",
@@ -43,7 +43,7 @@ CHECKS = {
   "Built with -race and the verif hooks: readers of every query kind (short and long requests, incl. concurrent remembering verifiers on full forests) run against a writer executing Modify/Undo/Ingest/Prune/Verify(remember)/Read (succeeding and failing); race-detector reports are de-duplicated by entry-point pair; at each of ten pause sites (inside the writer's critical section, inside Write, inside a concurrent verifier) the recorded call/return history is checked with porcupine against per-block reference states so a query that saw a half-applied block is Illegal; deadlocks and panics are caught by join watchdogs.",
   "Covers only the interleavings produced (forced pauses at hooked sites plus free-running schedules); the Go scheduler is not controllable and rr is unavailable."),
  "C13": ("fault_enumeration", "runtime monitoring with fault injection: every truncation offset, every writer failure offset and six reader chunkings per serialized state",
-  "For each sampled end state of Pollard, full and partial MapPollard (small, tens-of-KB and from-roots forests up to 2^63 leaves) the stream is restored through every reader chunking, from every strict prefix and written to sinks failing at every offset; restored instances are compared observationally with the original (and evolved further), byte counts and SerializeSize are checked, and silent acceptance of a damaged stream or a panic is a violation.",
+  "For each sampled end state of Pollard, full and partial MapPollard (small, tens-of-KB and from-roots forests up to 2^63 leaves) the stream is restored through every reader chunking, from every strict prefix and written to sinks failing at every offset; restored instances are compared observationally with the original (and evolved further, incl. undoing a block older than the stream), byte counts and SerializeSize are checked, and silent acceptance of a damaged stream or a panic is a violation.",
   "The fault space is enumerated completely per state; the states themselves are sampled. In-process io.Reader/io.Writer faults (the library does no system calls)."),
  "C14": ("exploration", "runtime monitoring: canonical-proof oracle for AddProof/GetProofSubset/GetMissingPositions/VerifyPartialProof",
   "At states of generated histories pairs of target sets (overlapping, disjoint, nested, cross-tree; sorted and prover order) are combined, restricted and completed; results are compared with the reference model's canonical proofs and missing-position sets, error/no-error with coverage, and the completed partial proofs must verify (and fail when one supplied hash is corrupted).",
@@ -56,7 +56,7 @@ CHECKS = {
   "Oracle shares no shift/mask code with utils.go; positions outside the documented domain are only checked for documented error returns."),
  "C17": ("exploration", "runtime monitoring: sentinel-padded argument slices and aliasing canaries compared before/after every call",
   "Every argument slice is a sub-slice of a larger backing array with sentinels, deep-copied before each call and compared afterwards; previously returned results are retained and re-compared after later calls; block data is re-used across verify, three instances, undo and re-apply.",
-  "Only honest blocks over the generated histories; receiver state is not a caller slice."),
+  "Honest blocks over the generated histories plus Modify calls that a partial forest must refuse; receiver state is not a caller slice."),
 }
 
 # properties with a registered check (edit as monitors land)
